@@ -64,9 +64,15 @@ UniformMM(b, e, tol) ==
 \* ---- group memo
 \* float results of two back-ends: within `ulps` units in the last place, except where both results are
 \* below the cancellation threshold b.thr (a re-associated f64 sum of terms much larger than the result)
-WithinF32(x, r, ulps, thr) ==
+\* mexp (optional, 0 = absent): biased exponent of the magnitude M of the summed terms; a result of exponent e < mexp is
+\* compared in units of M's last place (ulps * 2^(mexp - e) of its own)
+WithinF32(x, r, ulps, thr, mexp) ==
     /\ Len(x) = Len(r)
-    /\ \A i \in 1 .. Len(r) : Abs(x[i] - r[i]) <= ulps \/ (Abs(x[i]) <= thr /\ Abs(r[i]) <= thr)
+    /\ \A i \in 1 .. Len(r) :
+          LET big == IF Abs(x[i]) > Abs(r[i]) THEN Abs(x[i]) ELSE Abs(r[i])
+              e == big \div 8388608
+              k == IF mexp > e THEN (IF mexp - e > 20 THEN 20 ELSE mexp - e) ELSE 0
+          IN  Abs(x[i] - r[i]) <= ulps * Pow2(k) \/ (Abs(x[i]) <= thr /\ Abs(r[i]) <= thr)
 Within(x, r, tol) == Len(x) = Len(r) /\ \A i \in 1 .. Len(r) : Abs(x[i] - r[i]) <= tol
 GeAll(x, r, tol) == Len(x) = Len(r) /\ \A i \in 1 .. Len(r) : x[i] >= r[i] - tol
 RefOf(e) == IF "dst" \in DOMAIN e THEN e.dst ELSE IF "dig" \in DOMAIN e THEN e.dig ELSE << >>
@@ -95,7 +101,7 @@ ObsVerdict(b, e, a, grp, ref) ==
     ELSE IF inGroup /\ Has(b, "memo_exact") /\ RefOf(e) # ref THEN "differs-from-group"
     ELSE IF inGroup /\ Has(b, "memo_pm1") /\ ~Within(e.dst, ref, 1) THEN "differs-from-group"
     ELSE IF inGroup /\ Has(b, "memo_ulp") /\ ~Within(e.dst, ref, b.ulps) THEN "differs-from-group"
-    ELSE IF inGroup /\ Has(b, "memo_f32") /\ ~WithinF32(e.dst, ref, b.ulps, b.thr) THEN "differs-from-group"
+    ELSE IF inGroup /\ Has(b, "memo_f32") /\ ~WithinF32(e.dst, ref, b.ulps, b.thr, IF "mexp" \in DOMAIN b THEN b.mexp ELSE 0) THEN "differs-from-group"
     ELSE IF inGroup /\ Has(b, "mono") /\ ~GeAll(e.dst, ref, 0) THEN "not-monotone"
     ELSE IF inGroup /\ Has(b, "mono_ulp1") /\ ~GeAll(e.dst, ref, 1) THEN "not-monotone"
     ELSE IF inGroup /\ Has(b, "same_except") /\ ~SameExcept(b, e, a, ref) THEN "resampled-along-unchanged-dimension"
